@@ -10,7 +10,7 @@ CONSTANTS
   Pages = {1}
   SSizes = {1, 2}
   Filts = {"client", "server"}
-  Ops = {"pub", "rem", "exp", "sexp", "clear", "refresh"}
+  Ops = {"pub", "rem", "exp", "sexp", "clear", "refresh", "poscheck"}
   Pres = {3}
   N0s = {0}
   Contig = TRUE
